@@ -213,7 +213,8 @@ def rule_addr_model(rep: Report, repo: Repo) -> None:
     penv = Env({'preprocessor_data.memory_width': W, 'self.memory_width': W})
     aenv = Env({'self.memory_width': W})
     # FlipJump / WordFlip
-    rm = repo.func(PRE, 'resolve_macro_aux')
+    from ..pyfacts import hoist_value_helpers
+    rm = hoist_value_helpers(repo, PRE, repo.func(PRE, 'resolve_macro_aux'))          # `Expr(pd._advance(2w))` reads as `pd.curr_address += 2w; Expr(pd.curr_address)`
     chain, _ = _isinstance_chain(rm, 'op')
     fj_branch = [b for t, b in chain if t == {'FlipJump', 'WordFlip'}]
     if not fj_branch:
@@ -242,7 +243,7 @@ def rule_addr_model(rep: Report, repo: Repo) -> None:
             for k in range(48):
                 for a in range(1, 18):
                     try:
-                        got = eval_int_expr(pad_expr[0], {'self.curr_address': k * 2 * wv, 'op_size': 2 * wv, 'ops_alignment': a,
+                        got = eval_int_expr(resolve_names(al, pad_expr[0], keep=('op_size', 'ops_alignment')), {'self.curr_address': k * 2 * wv, 'op_size': 2 * wv, 'ops_alignment': a,
                                                          'self.memory_width': wv})
                     except AnalysisError:
                         raise
@@ -256,7 +257,11 @@ def rule_addr_model(rep: Report, repo: Repo) -> None:
     pre_pad = [lx.lin_show(to_lin(py_ir(resolve_names(al, v, keep=('ops_to_pad', 'op_size'))), env_al)) for op, v in _self_updates(al, 'curr_address') if op == '+=']
     pad_arg = [norm(c.args[0]) for c in calls(al) if dotted(c.func) == 'Padding']
     ip = repo.func(ASM, 'BinaryData.insert_padding')
-    asm_pad = [lx.lin_show(to_lin(py_ir(v), aenv)) for op, v in _self_updates(ip, 'current_address') if op == '+=']
+    asm_pad = [lx.lin_show(to_lin(py_ir(resolve_names(ip, v, keep=('ops_count',))), aenv)) for op, v in _self_updates(ip, 'current_address') if op == '+=']     # a named op size reads as 2w
+
+    def _factors(t: str) -> List[str]:
+        import re as _re
+        return sorted(_re.findall(r'[A-Za-z_][\w.]*|\d+', t))
     pad_call = [norm(c.args[0]) for s in br.get(frozenset({'Padding'}), []) for c in ast.walk(s) if isinstance(c, ast.Call) and dotted(c.func) == 'binary_data.insert_padding']
     pcls = repo.func(OPS, 'Padding.__init__')
     stored = any(norm(s) == 'self.ops_count = ops_count' for s in pcls.body)
@@ -264,7 +269,7 @@ def rule_addr_model(rep: Report, repo: Repo) -> None:
     rep.check(pre_pad == ['(2*w)*(ops_to_pad)'] or pre_pad == ['(ops_to_pad)*(2*w)'] or pre_pad == ['2*(ops_to_pad)*(w)'] or
               (len(pre_pad) == 1 and 'ops_to_pad' in pre_pad[0] and op_size_def == ['2 * self.memory_width']), 'C02.ADDR-MODEL', 'Padding:preprocessor',
               f'+{pre_pad} with op_size={op_size_def}; emits Padding({pad_arg})', f'{PRE}:{al.lineno}', expected='+ops_to_pad * 2w, Padding(ops_to_pad)')
-    rep.check(len(asm_pad) == 1 and asm_pad[0].replace('ops_count', 'ops_to_pad') == (pre_pad[0] if pre_pad else '') and pad_arg == ['ops_to_pad']
+    rep.check(len(asm_pad) == 1 and _factors(asm_pad[0].replace('ops_count', 'ops_to_pad')) == _factors(pre_pad[0] if pre_pad else '') and pad_arg == ['ops_to_pad']
               and pad_call == ['op.ops_count'] and stored, 'C02.ADDR-MODEL', 'Padding:emitter',
               f'+{asm_pad} for insert_padding({pad_call}); Padding stores ops_count={stored}', f'{ASM}:{ip.lineno}',
               expected='the same product with the same operand')
@@ -320,7 +325,8 @@ def rule_addr_model(rep: Report, repo: Repo) -> None:
 def rule_dollar(rep: Report, repo: Repo) -> None:
     rep.rule('C02.DOLLAR', 'for a FlipJump/WordFlip statement the address is advanced first, then `$` is bound to the new address, then '
              'the op is substituted, then `$` is removed; labels do not move the address', 2)
-    rm = repo.func(PRE, 'resolve_macro_aux')
+    from ..pyfacts import hoist_value_helpers
+    rm = hoist_value_helpers(repo, PRE, repo.func(PRE, 'resolve_macro_aux'))          # an "advance and hand back the address" helper reads as its two steps
     chain, _ = _isinstance_chain(rm, 'op')
     fj = [b for t, b in chain if t == {'FlipJump', 'WordFlip'}][0]
     def kind(st: ast.stmt) -> str:
